@@ -5,6 +5,7 @@ go 1.24.0
 require (
 	github.com/microsoft/yardl/tooling v0.0.0
 	golang.org/x/tools v0.29.0
+	gopkg.in/yaml.v3 v3.0.1
 )
 
 require (
@@ -16,7 +17,6 @@ require (
 	golang.org/x/mod v0.22.0 // indirect
 	golang.org/x/sync v0.10.0 // indirect
 	golang.org/x/sys v0.38.0 // indirect
-	gopkg.in/yaml.v3 v3.0.1 // indirect
 )
 
 replace github.com/microsoft/yardl/tooling => /repo/tooling
